@@ -1,0 +1,13 @@
+//go:build verif
+
+package cert
+
+import "math/rand"
+
+// VerifSeedRandom re-creates the package's math/rand source from the given
+// seed. It only exists in builds with the "verif" tag (deterministic
+// simulation); without the tag this file is not compiled and defaultRandom
+// stays seeded from the wall clock as before.
+func VerifSeedRandom(seed int64) {
+	defaultRandom = rand.New(rand.NewSource(seed))
+}
